@@ -235,11 +235,17 @@ def decodeElispOctalEscape : Nat → Nat → P Nat
         if n ≥ maxCp then errAt .invalidUnicodeCodePoint
         else decodeElispOctalEscape f (n * 8 + v)
 
-/-- `parse_elisp_char_escape`: a byte if it fits, else the UTF-8 encoding. -/
+/-- `parse_elisp_char_escape`: a byte if it fits, else the UTF-8 encoding.  A value that is not a
+    scalar: `surrogate_at_end` (a surrogate, and then a `peek` that finds the end of the input)
+    makes the escape incomplete (`EofWhileParsingString`), otherwise it is invalid. -/
 def elispCharEscape (acc : List UInt8) (n : Nat) : P (List UInt8 × ElispEscape) :=
   if isScalar n then
     if n > 255 then pure (acc ++ Utf8.encode n, .multibyte)
     else pure (acc ++ [UInt8.ofNat n], .unibyte)
+  else if Utf8.isSurrogate n then do
+    match (← peek) with
+    | none => errAt .eofString
+    | some _ => errAt .invalidUnicodeCodePoint
   else errAt .invalidUnicodeCodePoint
 
 /-- `parse_elisp_uni_char_escape`. -/
@@ -280,9 +286,19 @@ def parseElispEscape (fuel : Nat) (acc : List UInt8) : P (List UInt8 × ElispEsc
         if b3 != 43 then errAt .invalidEscape
         else do
           let n ← decodeElispHexEscape fuel 0
-          let r ← elispUniCharEscape acc n
-          let b4 ← nextOrEof
-          if b4 != 125 then errAt .invalidEscape else pure r
+          -- `surrogate_at_end`: the `peek` happens only for a surrogate; if the input does not end
+          -- there the closure returns `n` and `parse_elisp_uni_char_escape` goes on as before
+          if Utf8.isSurrogate n then do
+            match (← peek) with
+            | none => errAt .eofString
+            | some _ => do
+              let r ← elispUniCharEscape acc n
+              let b4 ← nextOrEof
+              if b4 != 125 then errAt .invalidEscape else pure r
+          else do
+            let r ← elispUniCharEscape acc n
+            let b4 ← nextOrEof
+            if b4 != 125 then errAt .invalidEscape else pure r
   else if c == 117 then do
     let n ← decodeElispUniEscape 4 0
     elispUniCharEscape acc n
@@ -401,6 +417,15 @@ def parseR6rsChar (fuel : Nat) : P Nat := do
 /-- `as_char` -/
 def asChar (n : Nat) : P Nat := if isScalar n then pure n else errAt .invalidUnicodeCodePoint
 
+/-- `as_escaped_char`: `surrogate_at_end` (a surrogate, and then a `peek` that finds the end of the
+    input) is `EofWhileParsingCharacterConstant`; otherwise `as_char`. -/
+def asEscapedChar (n : Nat) : P Nat :=
+  if Utf8.isSurrogate n then do
+    match (← peek) with
+    | none => errAt .eofChar
+    | some _ => asChar n
+  else asChar n
+
 /-- `decode_elisp_char_escape`: after `?\`. -/
 def decodeElispCharEscape (fuel : Nat) : P Nat := do
   let c ← nextOrEofChar
@@ -440,10 +465,10 @@ def decodeElispCharEscape (fuel : Nat) : P Nat := do
     asChar n
   else if c == 120 then do
     let n ← decodeElispHexEscape fuel 0
-    asChar n
+    asEscapedChar n
   else if 48 ≤ c && c ≤ 55 then do
     let n ← decodeElispOctalEscape fuel (c.toNat - 48)
-    asChar n
+    asEscapedChar n
   else if c > 0x7F then do
     let (ch, _) ← decodeUtf8Sequence c
     pure ch
